@@ -3,6 +3,13 @@
 // what it actually returned, its completion rank and a "finished" flag; the flags are read immediately after
 // All returns. The Lean driver replays the slot writes in the observed completion order and applies the
 // statement (every task finished; slot i = task i's value or error).
+//
+// Straggler family: All's contract is unconditional in time ("returns only after every task has finished, even
+// when the shared context is cancelled"), so a second family of plans contains tasks that keep running long after
+// the cancellation - ctx-ignoring tasks with long delays and tasks that notice the cancellation but need an
+// uninterruptible unwinding lag - on a logarithmic ladder of durations (milliseconds up to seconds), with the
+// cancellation before / early / late / never. The finished flags are still read right after All returns; the
+// harness then waits for the stragglers so that the line records what every task eventually returned.
 package main
 
 import (
@@ -24,9 +31,10 @@ func (e *codeErr) Error() string { return "e" + strconv.Itoa(e.code) }
 
 type task struct {
 	delayUs int
-	mode    int // 0 ignores ctx; 1 on cancel returns (0, err 9); 2 on cancel returns (val, err 9)
+	mode    int // 0 ignores ctx; 1 on cancel returns (0, err 9); 2 on cancel returns (val, err 9); 3 on cancel keeps going for lagUs (uninterruptible unwinding), then returns its own (val, err)
 	val     int
 	err     int
+	lagUs   int // mode 3 only
 }
 
 type plan struct {
@@ -40,6 +48,9 @@ func (p plan) token() string {
 	ts := make([]string, len(p.tasks))
 	for i, t := range p.tasks {
 		ts[i] = hlib.F("%d:%d:%d:%d", t.delayUs, t.mode, t.val, t.err)
+		if t.mode == 3 {
+			ts[i] += ":" + strconv.Itoa(t.lagUs)
+		}
 	}
 	return c + "/" + hlib.Join(ts, ",")
 }
@@ -61,10 +72,25 @@ func parsePlan(tok string) plan {
 		for _, s := range strings.Split(parts[1], ",") {
 			f := strings.Split(s, ":")
 			a := func(i int) int { v, _ := strconv.Atoi(f[i]); return v }
-			p.tasks = append(p.tasks, task{a(0), a(1), a(2), a(3)})
+			t := task{delayUs: a(0), mode: a(1), val: a(2), err: a(3)}
+			if len(f) > 4 {
+				t.lagUs = a(4)
+			}
+			p.tasks = append(p.tasks, t)
 		}
 	}
 	return p
+}
+
+// spanUs bounds how long the plan's tasks can legitimately run (microseconds).
+func (p plan) spanUs() int {
+	m := 0
+	for _, t := range p.tasks {
+		if d := t.delayUs + t.lagUs; d > m {
+			m = d
+		}
+	}
+	return m
 }
 
 type outcome struct{ lhs, rhs string }
@@ -87,10 +113,13 @@ func runPlan(p plan) (o outcome) {
 	rank := make([]atomic.Int64, n)
 	fin := make([]atomic.Bool, n)
 	var seq atomic.Int64
+	var tasksWG sync.WaitGroup
+	tasksWG.Add(n)
 	fns := make([]func(context.Context) (int, error), n)
 	for i, t := range p.tasks {
 		i, t := i, t
 		fns[i] = func(ctx context.Context) (int, error) {
+			defer tasksWG.Done()
 			v, e := t.val, t.err
 			d := time.Duration(t.delayUs) * time.Microsecond
 			if t.mode == 0 {
@@ -103,6 +132,10 @@ func runPlan(p plan) (o outcome) {
 				case <-tm.C:
 				case <-ctx.Done():
 					tm.Stop()
+					if t.mode == 3 { // e.g. a blocking call that cannot be interrupted
+						time.Sleep(time.Duration(t.lagUs) * time.Microsecond)
+						break
+					}
 					e = 9
 					if t.mode == 1 {
 						v = 0
@@ -143,7 +176,7 @@ func runPlan(p plan) (o outcome) {
 				panicked = true
 			}
 		}()
-		res, errs = promise.All(ctx, fns...)
+		r0, e0 := promise.All(ctx, fns...)
 		for i := range flags { // read the flags before anything else
 			if fin[i].Load() {
 				flags[i] = '1'
@@ -151,11 +184,23 @@ func runPlan(p plan) (o outcome) {
 				flags[i] = '0'
 			}
 		}
+		// what the caller holds at the moment All returned (a snapshot: nothing may change it afterwards anyway)
+		res = append([]int{}, r0...)
+		errs = append([]error{}, e0...)
 	}()
+	span := time.Duration(p.spanUs()) * time.Microsecond
 	select {
 	case <-finished:
-	case <-time.After(5 * time.Second): // every task is done within a millisecond: All never returned
+	case <-time.After(span + 5*time.Second): // every task is done by `span`: All never returned
 		hung = true
+	}
+	// let every task run to its end (bounded), so that the line records what each one returned; the flags above
+	// were taken right after All returned and are not affected
+	allDone := make(chan struct{})
+	go func() { tasksWG.Wait(); close(allDone) }()
+	select {
+	case <-allDone:
+	case <-time.After(span + 5*time.Second):
 	}
 	outs := make([]string, n)
 	type rk struct{ i, r int }
@@ -205,7 +250,7 @@ func runPlan(p plan) (o outcome) {
 
 func main() {
 	r := hlib.Start()
-	r.Rule = "one case = one call of promise.All with 0..16 tasks; per task: delay 0..400us, value (0 = zero value included), error / both value and error, ctx-ignoring or ctx-respecting; cancellation never / before the call / after 0..500us / deadline; non-trivial = n >= 1 (distinct plan)"
+	r.Rule = "one case = one call of promise.All with 0..16 tasks; per task: delay 0..400us, value (0 = zero value included), error / both value and error, ctx-ignoring or ctx-respecting; cancellation never / before the call / after 0..500us / deadline; plus a straggler family: 1..3 of 1..16 tasks run on for 1ms..2.5s (log ladder) ignoring ctx or unwinding slowly after noticing it, cancellation at once / early / late / never; non-trivial = n >= 1 (distinct plan)"
 	rng := hlib.NewRng(r.Seed)
 	if r.Replay != "" {
 		for _, t := range r.ReplayLines() {
@@ -213,7 +258,11 @@ func main() {
 				continue
 			}
 			p := parsePlan(t[2])
-			for k := 0; k < 50; k++ {
+			reps := 50
+			if p.spanUs() > 20_000 {
+				reps = 3
+			}
+			for k := 0; k < reps; k++ {
 				o := runPlan(p)
 				r.Emit(o.lhs, o.rhs)
 			}
@@ -221,11 +270,11 @@ func main() {
 		r.Finish()
 		return
 	}
-	ncase := 4000
+	ncase, nstrag := 4000, 36
 	if r.Thorough() {
-		ncase = 120000
+		ncase, nstrag = 120000, 360
 	}
-	plans := make([]plan, ncase)
+	plans := make([]plan, ncase, ncase+nstrag)
 	for c := range plans {
 		var p plan
 		n := rng.Intn(17)
@@ -251,23 +300,70 @@ func main() {
 		}
 		plans[c] = p
 	}
-	outs := make([]outcome, ncase)
-	var wg sync.WaitGroup
-	var next atomic.Int64
-	for w := 0; w < 8; w++ {
-		wg.Add(1)
-		go func() {
-			defer wg.Done()
-			for {
-				c := int(next.Add(1)) - 1
-				if c >= ncase {
-					return
-				}
-				outs[c] = runPlan(plans[c])
+	// straggler family (drawn after the short plans, whose stream is therefore unchanged): 1..3 tasks outlive
+	// the cancellation by a duration from a logarithmic ladder; the others are short tasks as above
+	ladderUs := []int{2_000, 10_000, 50_000, 250_000, 1_000_000, 2_500_000}
+	for c := 0; c < nstrag; c++ {
+		var p plan
+		scale := ladderUs[c%len(ladderUs)]
+		n := 1 + rng.Intn(16)
+		p.cancel = []int{0, 1, 2, 2, 3, 3}[rng.Intn(6)]
+		switch rng.Intn(3) {
+		case 0:
+			p.cancelUs = rng.Intn(200) // at once
+		case 1:
+			p.cancelUs = 200 + rng.Intn(scale/4+1) // early in the stragglers' life
+		default:
+			p.cancelUs = scale/2 + rng.Intn(scale/2+1) // late
+		}
+		for i := 0; i < n; i++ {
+			t := task{delayUs: rng.Intn(401), mode: rng.Intn(3)}
+			switch rng.Intn(4) {
+			case 0:
+				t.err = 1 + rng.Intn(5)
+			case 1:
+				t.val = 0
+			default:
+				t.val = 1 + rng.Intn(1_000_000)
 			}
-		}()
+			p.tasks = append(p.tasks, t)
+		}
+		for k, ns := 0, 1+rng.Intn(3); k < ns; k++ {
+			t := &p.tasks[rng.Intn(n)]
+			dur := scale/2 + rng.Intn(scale/2+1)
+			if rng.Intn(2) == 0 {
+				t.mode, t.delayUs, t.lagUs = 0, dur, 0 // never looks at ctx
+			} else {
+				t.mode, t.delayUs, t.lagUs = 3, p.cancelUs+dur, dur // notices, then unwinds for `dur`
+			}
+			if t.val == 0 && t.err == 0 && rng.Intn(2) == 0 {
+				t.val = 1 + rng.Intn(1_000_000)
+			}
+		}
+		plans = append(plans, p)
 	}
-	wg.Wait()
+	outs := make([]outcome, len(plans))
+	pool := func(lo, hi, workers int) {
+		var wg sync.WaitGroup
+		var next atomic.Int64
+		next.Store(int64(lo))
+		for w := 0; w < workers; w++ {
+			wg.Add(1)
+			go func() {
+				defer wg.Done()
+				for {
+					c := int(next.Add(1)) - 1
+					if c >= hi {
+						return
+					}
+					outs[c] = runPlan(plans[c])
+				}
+			}()
+		}
+		wg.Wait()
+	}
+	pool(0, ncase, 8)
+	pool(ncase, len(plans), 18) // these mostly sleep
 	for c, o := range outs {
 		r.Emit(o.lhs, o.rhs)
 		p := plans[c]
@@ -278,6 +374,12 @@ func main() {
 		}
 		r.Count("tasks=" + strconv.Itoa(len(p.tasks)))
 		r.Count("cancel=" + []string{"never", "before", "during", "deadline"}[p.cancel])
+		if c >= ncase {
+			r.Count("straggler-plan")
+			if p.cancel != 0 {
+				r.Count(hlib.F("straggler-outlives-cancel~%dms", ladderUs[(c-ncase)%len(ladderUs)]/1000))
+			}
+		}
 		if strings.Contains(o.lhs, ":9") {
 			r.Count("some-task-saw-cancellation")
 		}
